@@ -1,5 +1,7 @@
 package iterators
 
+import "fmt"
+
 // Range creates an Iterator that will
 // iterate numbers from a to b, including b.
 func Range(a, b int) Iterator {
@@ -17,6 +19,16 @@ type ranger struct {
 
 func newRanger(first, last int) *ranger {
 	return &ranger{next: first, last: last, done: first > last}
+}
+
+// String keeps the iterator's address out of anything that prints it
+// (an iterator inside a collection, an error message naming an argument):
+// the address differs from one execution to the next.
+func (r *ranger) String() string {
+	if r.done {
+		return "range()"
+	}
+	return fmt.Sprintf("range(%d..%d)", r.next, r.last)
 }
 
 // Next returns the next number in the Range or nil
